@@ -8,7 +8,7 @@ from .seqgen import build_sequence, delay_value
 
 ID = "C10"
 ALLOWED_AXIOMS = []
-PROPS_FILES = ["C10", "C10b"]
+PROPS_FILES = ["C10", "C10b", "C15b"]
 RULE = ("consistent sequences of 1-3 positions and 1-4 channels (int and str ids) whose elements list their channels "
         "in independently shuffled order, blueprint channels (ramps, constant user functions, waits, marker 1 absolute, "
         "marker 2 segment-bound) and raw-array channels with markers, optional subsequences; per-channel delays of 0 "
@@ -39,6 +39,10 @@ def gen_case(rng):
     s, ops, meta = build_sequence(rng, regs, SR, N, chans, rng.randint(1, 3 if not long else 2), kinds,
                                   ["ramp", "ua"], subs=subs, waits=rng.choice([True, 0.6]),
                                   nseg=rng.choice([None, None, 5]))
+    if rng.random() < 0.15 and not long:
+        # the sequence's own sample-rate setting differs from the (common) rate its elements are sampled at: still
+        # consistent (the gate compares the entries with each other); delays act at the elements' rate in every path
+        ops.append(("SSetSR", s, SR * rng.choice([2, 0.5])))
     delays = {}
     zero_all = rng.random() < 0.12
     for c in chans:
